@@ -29,10 +29,13 @@ func (w *recWriter) Write(b []byte) (int, error) {
 	return len(b), nil
 }
 
-// faultWriter fails at call k (and at every later call), accepting either nothing or a strict prefix there.
+// faultWriter fails at call k, accepting either nothing or a strict prefix there; a sticky one
+// fails at every later call too, the other kind works again afterwards (what it is handed then
+// is counted, not kept: the statement is about what was accepted before the failure).
 type faultWriter struct {
 	k        int
 	partial  bool
+	once     bool
 	n        int
 	accepted strings.Builder
 	after    int // calls made after the failing one
@@ -46,6 +49,9 @@ func (w *faultWriter) Write(b []byte) (int, error) {
 	}
 	if w.n > w.k {
 		w.after++
+		if w.once {
+			return len(b), nil
+		}
 		return 0, errWriter
 	}
 	if w.partial && len(b) > 1 {
@@ -104,12 +110,13 @@ var c20Fault = hx.Define("c20.write-faults", func(c *c20Case, s *hx.Sub) *hx.Vio
 	W := len(rec.calls)
 	totalTicks := ticks
 	for k := 0; k < W; k++ {
-		for _, partial := range []bool{false, true} {
+		for mode := 0; mode < 4; mode++ {
+			partial, once := mode%2 == 1, mode >= 2
 			for _, entry := range []string{"FRender", "ParseAndFRender"} {
 				s.Eval()
 				t2 := 0
 				e2 := c20Engine(&t2)
-				fw := &faultWriter{k: k, partial: partial}
+				fw := &faultWriter{k: k, partial: partial, once: once}
 				var ferr liquid.SourceError
 				pi := hx.Guard(func() {
 					if entry == "FRender" {
@@ -123,7 +130,7 @@ var c20Fault = hx.Define("c20.write-faults", func(c *c20Case, s *hx.Sub) *hx.Vio
 						ferr = e2.ParseAndFRender(fw, []byte(src), c.P.Binds.Realise())
 					}
 				})
-				desc := fmt.Sprintf("%s of %q to a writer that fails at call %d of %d (%s)", entry, src, k, W, map[bool]string{true: "after accepting a strict prefix", false: "accepting nothing"}[partial])
+				desc := fmt.Sprintf("%s of %q to a writer that fails at call %d of %d (%s; %s)", entry, src, k, W, map[bool]string{true: "after accepting a strict prefix", false: "accepting nothing"}[partial], map[bool]string{true: "only that once", false: "and from then on"}[once])
 				if pi != nil {
 					return hx.V("panic@"+pi.Site, "%s: %v", desc, pi)
 				}
@@ -135,8 +142,8 @@ var c20Fault = hx.Define("c20.write-faults", func(c *c20Case, s *hx.Sub) *hx.Vio
 				if pi := hx.Guard(func() { msg, cause = ferr.Error(), ferr.Cause(); _ = ferr.Path(); _ = ferr.LineNumber() }); pi != nil {
 					return hx.V("c20:error-accessor-panic@"+pi.Site, "%s returned an error whose accessors panic: %v", desc, pi)
 				}
-				if !strings.Contains(msg, errWriter.Error()) && !reaches(cause, func(e error) bool { return e == errWriter }) {
-					return hx.V("c20:failure-not-carried", "%s returned %q (cause %v), which does not carry the writer's failure", desc, msg, cause)
+				if !strings.Contains(msg, errWriter.Error()) || !reaches(cause, func(e error) bool { return e == errWriter }) {
+					return hx.V("c20:failure-not-carried", "%s returned %q (cause %v), which does not carry the writer's failure: the message is to name it and the cause chain is to lead to the writer's error value", desc, msg, cause)
 				}
 				if !strings.HasPrefix(full, fw.accepted.String()) {
 					return hx.V("c20:not-a-prefix", "%s: the writer accepted %q, which is not a prefix of the fault-free output %q", desc, fw.accepted.String(), full)
@@ -153,14 +160,14 @@ var c20Fault = hx.Define("c20.write-faults", func(c *c20Case, s *hx.Sub) *hx.Vio
 					return hx.V("c20:writes-after-failure", "%s: %d further Write calls were made after the failure", desc, fw.after)
 				}
 				if W >= 3 && (k > 0 || partial) {
-					s.NTKey(fmt.Sprint(src, k, partial, entry))
+					s.NTKey(fmt.Sprint(src, k, mode, entry))
 				}
 			}
 		}
 	}
 	s.Class(fmt.Sprintf("writes-%d", min(W, 20)/5*5))
 	if s.WantSample() {
-		s.Sample(map[string]any{"template": src, "write_calls": W, "fault_points": W * 4})
+		s.Sample(map[string]any{"template": src, "write_calls": W, "fault_points": W * 8})
 	}
 	return nil
 })
@@ -183,7 +190,7 @@ func TestC20(t *testing.T) {
 	col.Corpus()
 	env := col.Env
 
-	chk := c20Fault.On(col, "fault enumeration: rapid-generated programs covering every tag (objects, assign, if/unless/case, for and tablerow with else/break/continue, cycle, capture, comment, raw, include of a cached template, whitespace-control hyphens); a fault-free FRender into a recording writer gives the W write calls, then for EVERY k in 0..W-1 x {the writer accepts nothing, accepts a strict prefix} x {Template.FRender, Engine.ParseAndFRender} a sticky fault writer fails at call k with a sentinel error. Oracle: no panic; a non-nil SourceError whose message or cause chain carries the sentinel; the accepted bytes are a prefix of the fault-free output; evaluation stops (counting filters evaluated <= the fault-free count at the write after next; at most one further Write call). evaluations counts fault points; non-trivial: W >= 3 and (k > 0 or a partial write); distinct by (template, k, mode, entry point)", false)
+	chk := c20Fault.On(col, "fault enumeration: rapid-generated programs covering every tag (objects, assign, if/unless/case, for and tablerow with else/break/continue, cycle, capture, comment, raw, include of a cached template, whitespace-control hyphens); a fault-free FRender into a recording writer gives the W write calls, then for EVERY k in 0..W-1 x {the writer accepts nothing, accepts a strict prefix} x {it keeps failing afterwards, it fails only that once} x {Template.FRender, Engine.ParseAndFRender} a fault writer fails at call k with a sentinel error. Oracle: no panic; a non-nil SourceError whose message names the sentinel and whose cause chain (Cause/Unwrap) leads to the sentinel value; the accepted bytes are a prefix of the fault-free output; evaluation stops (counting filters evaluated <= the fault-free count at the write after next; at most one further Write call). evaluations counts fault points; non-trivial: W >= 3 and (k > 0 or a partial write); distinct by (template, k, mode, entry point)", false)
 	chk.Sub.Exhaustive = false
 	prof := hx.FullProfile()
 	prof.Tablerow, prof.WSText, prof.Ticks, prof.MaxNodes, prof.BareJumps, prof.LongText = true, true, true, 10, true, true
